@@ -183,10 +183,34 @@ fn account(stats: &mut Stats, task: &Task, out: &CaseOut, picks: &[u32], trace: 
     }
 }
 
+/// Violations are also appended to a side file the moment they are found, so that they survive
+/// a later crash of the process (memory corruption caused by the very defect being reported).
+pub static VIOLATION_LOG: std::sync::OnceLock<String> = std::sync::OnceLock::new();
+
+fn log_violation_now(prop: &str, cfg: &str, shape: Shape, v: &Violation, picks: &[u32], trace: &str) {
+    use std::io::Write as _;
+    let Some(path) = VIOLATION_LOG.get() else { return };
+    let picks_s: Vec<String> = picks.iter().map(|p| p.to_string()).collect();
+    let line = format!(
+        "{{\"prop\": {}, \"sig\": {}, \"msg\": {}, \"cfg\": {}, \"shape\": {}, \"picks\": [{}], \"trace\": {}}}\n",
+        jstr(prop),
+        jstr(&v.sig),
+        jstr(&v.msg),
+        jstr(cfg),
+        jstr(shape_name(shape)),
+        picks_s.join(","),
+        jstr(trace)
+    );
+    if let Ok(mut f) = std::fs::OpenOptions::new().create(true).append(true).open(path) {
+        let _ = f.write_all(line.as_bytes());
+    }
+}
+
 fn record_violation(stats: &mut Stats, task: &Task, v: &Violation, picks: &[u32], trace: &str) {
     if stats.violations.iter().any(|x| x.sig == v.sig && x.cfg == task.entry.name) || stats.violations.len() >= 64 {
         return;
     }
+    log_violation_now(task.spec.prop, task.entry.name, task.shape, v, picks, trace);
     let enabled = v.monitor & task.spec.mon;
     stats.violations.push(ViolationRec {
         prop: task.spec.prop.to_string(),
